@@ -86,6 +86,9 @@ func (g *Gen) setupBuffer(env *wire.Env, mode string, uni bool) (script []wire.T
 		if env.Multiline != "" && g.P(50) {
 			script = append(script, tok("\\", "self-insert"), tok("\r", "accept-line"))
 			tail := g.word(false, 5) + " " + g.word(false, 3)
+			if g.P(25) {
+				tail = "" // the buffer ends with the newline: an open, empty last line
+			}
 			for _, r := range tail {
 				script = append(script, tok(string(r), "self-insert"))
 			}
@@ -120,6 +123,7 @@ type c16X struct {
 	Kills []int `json:"kills"` // token indexes of the kill commands
 	Yank  int   `json:"yank"`  // token index of the yank
 	Vi    bool  `json:"vi"`
+	Yank2 int   `json:"yank2,omitempty"` // token index of a second yank of the same kill, after edits that are not kills
 }
 
 func genC16(g *Gen, tier string, idx int) *wire.Scenario {
@@ -219,6 +223,20 @@ func genC16(g *Gen, tier string, idx int) *wire.Scenario {
 		}
 		x.Yank = len(script)
 		script = append(script, tok(g.Cat.ShortSeqFor(km, "yank"), "yank"))
+		if g.P(25) {
+			// the user goes on editing (no kill among it) and yanks the same text again
+			for i := 0; i < g.Range(1, 5); i++ {
+				script = append(script, tok(g.Cat.ShortSeqFor(km, Pick(g, []string{"backward-char", "backward-char", "forward-char", "beginning-of-line", "end-of-line", "backward-word"})), "move"))
+			}
+			for i := 0; i < g.Range(1, 3); i++ {
+				script = append(script, tok(string(Pick(g, []rune("XYZ "))), "self-insert"))
+			}
+			for i := 0; i < g.N(3); i++ {
+				script = append(script, tok(g.Cat.ShortSeqFor(km, Pick(g, []string{"backward-char", "forward-char", "end-of-line"})), "move"))
+			}
+			x.Yank2 = len(script)
+			script = append(script, tok(g.Cat.ShortSeqFor(km, "yank"), "yank"))
+		}
 	}
 	sc.Env = env
 	sc.Script = script
@@ -279,8 +297,26 @@ func execC16(x *Ctx, sc *wire.Scenario) *wire.Result {
 			// the numeric argument typed for the kill is applied to the yank again
 			sig = "yank-differs:numeric-argument-of-the-kill-repeats-the-yank"
 		}
+		if xx.Vi && ok && strings.HasSuffix(lastR, "\n") && (ins == lastR+"\n" || ins == "\n"+lastR) {
+			// the listed line-wise put: register text that ends with a newline is put as a line of its own
+			sig = "kill-yank-not-identity:" + sc.Script[xx.Kills[len(xx.Kills)-1]].Cmd + ":killed-text-ends-with-a-newline"
+		}
 		return violation(res, "MISMATCH", "C16.yank-inserts-last-kill", sig,
 			fmt.Sprintf("the last kill removed %q; yank turned %q into %q (inserted %q)", lastR, y0.Line, y1.Line, ins))
+	}
+	if xx.Yank2 > xx.Yank {
+		z0, z1 := waitAfter(out, xx.Yank2), waitAfter(out, xx.Yank2+1)
+		if z0 != nil && z1 != nil && z0.Kind == "main" {
+			ins2, _, ok2 := removedRun(z1.Line, z0.Line)
+			if ok2 && ins2 != lastR && isRemovalOf(z1.Line, z0.Line, lastR) {
+				ins2 = lastR
+			}
+			res.Counters["checked:second_yank_after_edits"]++
+			if !ok2 || ins2 != lastR {
+				return violation(res, "MISMATCH", "C16.yank-inserts-last-kill", "second-yank-differs:after-edits-that-are-not-kills",
+					fmt.Sprintf("the last kill removed %q and the first yank inserted it; after moves and typed characters (no kill) yank turned %q into %q (inserted %q)", lastR, z0.Line, z1.Line, ins2))
+			}
+		}
 	}
 	if len(xx.Kills) == 1 && xx.Yank == xx.Kills[0]+1 {
 		// vi: when the deletion reaches the end of the line the cursor steps back onto the
@@ -477,6 +513,7 @@ type c18X struct {
 	K     []wire.Token `json:"k"`
 	Vi    bool         `json:"vi"`
 	Reg   string       `json:"reg"`
+	Later bool         `json:"later,omitempty"` // recorded in one Readline call, replayed in the next
 }
 
 func genC18(g *Gen, tier string, idx int) *wire.Scenario {
@@ -544,6 +581,8 @@ func genC18(g *Gen, tier string, idx int) *wire.Scenario {
 		}
 	}
 	x.Setup = len(script)
+	// the macro is recorded in one Readline call, the line accepted, and the macro replayed in the next call
+	x.Later = g.P(15)
 	sc.Env = env
 	sc.Script = script
 	sc.X = mustJSON(x)
@@ -587,20 +626,39 @@ func execC18(x *Ctx, sc *wire.Scenario) *wire.Result {
 		b = append(b, xx.K...)
 		b = append(b, tok("\x18)", "end-kbd-macro"), tok("\x18e", "call-last-kbd-macro"))
 	}
-	sa, sb := *sc, *sc
-	sa.Script, sb.Script = a, b
-	oa := runSession(x, &sa, wire.Plan{Policy: "canonical", Class: "S0"}, sim.Hooks{}, false)
-	absorb(res, oa)
-	ob := runSession(x, &sb, sc.Plan, sim.Hooks{}, false)
-	absorb(res, ob)
-	for _, o := range []*sim.Outcome{oa, ob} {
-		if o.End != "WAITING" || o.EndDetail != "main" {
-			res.Counters["skipped:"+strings.ToLower(o.End)]++
-			return res
+	hooks := sim.Hooks{}
+	if xx.Later {
+		// A: K, Return; next call: text, K.   B: record K, Return; next call: text, replay.
+		var next []wire.Token
+		for _, r := range "one (two) three" {
+			next = append(next, tok(string(r), "self-insert"))
+		}
+		a = append(append(append([]wire.Token(nil), setup...), xx.K...), tok("\r", "accept-line"))
+		a = append(a, next...)
+		b = b[:len(b)-1] // without the replay key(s)
+		if xx.Vi {
+			b = b[:len(b)-1]
+			a = append(a, tok("\x1b", "vi-movement-mode"))
+		}
+		a = append(a, xx.K...)
+		b = append(b, tok("\r", "accept-line"))
+		b = append(b, next...)
+		if xx.Vi {
+			b = append(b, tok("\x1b", "vi-movement-mode"), tok("@", "macro-run"), tok(xx.Reg, "register"))
+		} else {
+			b = append(b, tok("\x18e", "call-last-kbd-macro"))
+		}
+		hooks.Body = func(s *sim.Session, sh *readlineShell) {
+			s.Readline(sh)
+			s.Readline(sh)
 		}
 	}
-	res.Nontrivial = len(xx.K) > 0
-	fa, fb := oa.FinalSnap, ob.FinalSnap
+	sa, sb := *sc, *sc
+	sa.Script, sb.Script = a, b
+	oa := runSession(x, &sa, wire.Plan{Policy: "canonical", Class: "S0"}, hooks, false)
+	absorb(res, oa)
+	ob := runSession(x, &sb, sc.Plan, hooks, false)
+	absorb(res, ob)
 	if xx.Vi {
 		// the recording must be stopped and the macro run from command mode: if K leaves
 		// the editor elsewhere, "q" and "@" are text, not commands (not a macro replay at all)
@@ -614,6 +672,26 @@ func execC18(x *Ctx, sc *wire.Scenario) *wire.Result {
 			return res
 		}
 	}
+	for _, o := range []*sim.Outcome{oa, ob} {
+		if o.End != "WAITING" || o.EndDetail != "main" {
+			if xx.Later && o == ob && oa.End == "WAITING" && oa.EndDetail == "main" && len(oa.Returns) == 1 && len(ob.Returns) > 1 {
+				return violation(res, "MISMATCH", "C18.replay-equals-retyping", "macro-replay-differs:later-call:returns",
+					fmt.Sprintf("macro K=%v recorded in one Readline call and replayed in the next: the replay made Readline return %+v; typing K there leaves the line %q being edited",
+						scriptSummary(xx.K), ob.Returns[1], oa.FinalSnap.Line))
+			}
+			res.Counters["skipped:"+strings.ToLower(o.End)]++
+			return res
+		}
+		if xx.Later && len(o.Returns) != 1 {
+			res.Counters["skipped:first_call_did_not_return_once"]++
+			return res
+		}
+	}
+	if xx.Later {
+		res.Counters["checked:replayed_in_a_later_call"]++
+	}
+	res.Nontrivial = len(xx.K) > 0
+	fa, fb := oa.FinalSnap, ob.FinalSnap
 	if fa.Line != fb.Line || fa.Pos != fb.Pos {
 		style := "emacs"
 		if xx.Vi {
@@ -643,6 +721,9 @@ func execC18(x *Ctx, sc *wire.Scenario) *wire.Result {
 				cls += ":esc-followed-by-key"
 				break
 			}
+		}
+		if xx.Later && !strings.Contains(cls, "esc-followed-by-key") {
+			cls = "later-call:" + cls // (a lone ESC followed by a key is replayed the same way in any call: the listed finding)
 		}
 		return violation(res, "MISMATCH", "C18.replay-equals-retyping", "macro-replay-differs:"+style+":"+cls,
 			fmt.Sprintf("%s macro K=%v: typing K twice gives %q cursor %d; recording K and replaying it gives %q cursor %d",
